@@ -11,8 +11,17 @@ def treewf(p, props="C03", prefix="TreeWF"):
     return [("%s.%s" % (prefix, n), "TW_%s(%s)" % (n, p), props) for n in names]
 
 
+NODE_CLASSES = [None, "HOO_node", "HCT_node", "VHCT_node"]
+
+
 def register(reg):
-    fn, loop, pred = reg.fn, reg.loop, reg.pred
+    loop, pred = reg.loop, reg.pred
+
+    def fn(q, **kw):
+        if q.endswith(".make_children") and not kw.get("abstract") or (q.endswith(".__init__") and "Partition" in q):
+            kw.setdefault("N", NODE_CLASSES)
+            kw.setdefault("N_light", True)
+        return reg.fn(q, **kw)
 
     # ------------------------------------------------------------------ shared predicates
     pred("Box", "dom",
